@@ -42,6 +42,16 @@ theorem u10_certified (F : ℝ → ℝ) (bulkRate guessU10 guessDir u : ℝ) (hb
     exact absurd hz hb
   · exact newtonRaphson_certified F u10Cfg rfl guessU10 u h
 
+/-- with a continuous balance function, a bracketed estimate lies in an interval that contains an
+exact zero of the balance (integrated wind input + dissipation − active rate of change = 0) -/
+theorem u10_bracket_contains_root (F : ℝ → ℝ) (lo hi : ℝ) (hle : lo ≤ hi) (hc : ContinuousOn F (Set.Icc lo hi))
+    (hs : F lo * F hi < 0) : ∃ u ∈ Set.Icc lo hi, F u = 0 :=
+  root_of_sign_change F lo hi hle hc hs
+
+/-- each point of a batch is inverted on its own: the batch model is a map -/
+theorem u10_batch_independent {β : Type} (invert : β → Option ℝ × ℝ) (batch : List β) (i : ℕ) (h : i < batch.length) :
+    (batch.map invert)[i]'(by simpa using h) = invert batch[i] := by simp
+
 /-- the step tolerance of the certificate is the 0.01 m/s of the property -/
 theorem u10_step_tolerance (F : ℝ → ℝ) (u : ℝ) (h : Certified F u10Cfg u) :
     ∃ prev : ℝ, absv (u - prev) < 1 / 100 := by
